@@ -48,6 +48,10 @@ pub struct SlCase {
     /// friction-brake ramp-up time in s (None: what TrainSimBuilder hard-codes, 0 s = full force at once)
     #[serde(default)]
     pub brake_ramp: Option<f64>,
+    /// bit k set: zone k is posted with a NEGATIVE (sign-flagged) speed of the same magnitude -- the library keeps the
+    /// sign as a flag (min_speed) and enforces the magnitude (braking points take abs())
+    #[serde(default)]
+    pub neg: u8,
 }
 
 fn elev_at(grade: u8, x: f64) -> f64 {
@@ -112,10 +116,10 @@ pub fn build_network(c: &SlCase) -> Network {
         pts.push((len, elev_at(c.grade, base + len)));
         f.elevs = pts;
         let mut lims = vec![];
-        for (s, e, v) in &c.zones {
+        for (zi, (s, e, v)) in c.zones.iter().enumerate() {
             let (a, b) = (s.max(base), e.min(base + len));
             if a < b {
-                lims.push((a - base, b - base, *v));
+                lims.push((a - base, b - base, if c.neg & (1 << zi) != 0 { -*v } else { *v }));
             }
         }
         f.speed_limits = lims;
@@ -540,7 +544,7 @@ pub fn trains() -> Vec<TrainSpec> {
 
 pub fn rule(which: &str, tier: Tier) -> String {
     format!(
-        "E-SHAPE: every 3-zone restriction profile over cut points {:?} m of a 3 km route with speeds {:?} m/s (270 patterns; contains the 100-300 m higher-speed windows between slower sections) x head/tail-end sets x grade in {{flat, +1.5 %, -1.5 %, vee, -1.5 % easing to -0.9 %, -0.3/-1.5/-0.9 %/flat}} x trains {{10 loaded cars + conv/BEL, 60 mixed cars + shipped 5-unit consist, 60 loaded cars + ONE locomotive (downgrades only: friction brakes carry the braking)}} x departure time in {{0, 137.5 s}} on (a) one 3 km link, whole path; and on a 3 x 1 km chain{}: (b) link-by-link extension when the front is within {{8047 m (5 mi), 1000 m, 25 m}} of the end of authority, (c) the real walk_timed_path with every single entry delayed by {{0, 60, 600}} s, (d) make_est_times (chain extended by a 9 km link, because it only moves the train while > 5 mi of path lie ahead). One real SpeedLimitTrainSim run per element, stepped with the real step(); oracle {} on every step (every saved row for walk_timed_path). distinct_nontrivial = distinct (outcome, window class, grade, head/tail, links, mode) signatures.",
+        "E-SHAPE: every 3-zone restriction profile over cut points {:?} m of a 3 km route with speeds {:?} m/s (270 patterns; contains the 100-300 m higher-speed windows between slower sections) x head/tail-end sets x grade in {{flat, +1.5 %, -1.5 %, vee, -1.5 % easing to -0.9 %, -0.3/-1.5/-0.9 %/flat}} x trains {{10 loaded cars + conv/BEL, 60 mixed cars + shipped 5-unit consist, 60 loaded cars + ONE locomotive (downgrades only: friction brakes carry the braking)}} x departure time in {{0, 137.5 s}} on (a) one 3 km link, whole path (for two of the trains also with the first / the middle / the first two / all three zones posted with a NEGATIVE, sign-flagged speed of the same magnitude); and on a 3 x 1 km chain{}: (b) link-by-link extension when the front is within {{8047 m (5 mi), 1000 m, 25 m}} of the end of authority, (c) the real walk_timed_path with every single entry delayed by {{0, 60, 600}} s, (d) make_est_times (chain extended by a 9 km link, because it only moves the train while > 5 mi of path lie ahead). One real SpeedLimitTrainSim run per element, stepped with the real step(); oracle {} on every step (every saved row for walk_timed_path). distinct_nontrivial = distinct (outcome, window class, grade, head/tail, links, mode) signatures.",
         CUTS,
         SPEEDS,
         if tier.is_thorough() { " (all patterns)" } else { " (every 3rd pattern)" },
@@ -561,31 +565,37 @@ pub fn cases(tier: Tier) -> Vec<SlCase> {
                         continue;
                     }
                     let t0 = if (pi + ti) % 2 == 0 { 0.0 } else { 137.5 };
-                    v.push(SlCase { sl: true, link_len: vec![TOTAL], zones: z.clone(), grade, head_end: head, train, t0, mode: Mode::Whole, brake_ramp: None });
+                    v.push(SlCase { sl: true, link_len: vec![TOTAL], zones: z.clone(), grade, head_end: head, train, t0, mode: Mode::Whole, brake_ramp: None, neg: 0 });
+                    if ti != 1 {
+                        // sign-flagged (negative) posted speeds: first zone, middle zone, the first two, all three
+                        for neg in [0b001u8, 0b010, 0b011, 0b111] {
+                            v.push(SlCase { sl: true, link_len: vec![TOTAL], zones: z.clone(), grade, head_end: head, train, t0, mode: Mode::Whole, brake_ramp: None, neg });
+                        }
+                    }
                     if ti == 2 {
                         // the same heavy train with a 10 s friction-brake ramp (TrainSimBuilder hard-codes 0 s; the field
                         // is public).  Longer ramps are NOT generated: from about 15 s the unchanged code already runs
                         // into its overspeed assert when the limit is reached on a downgrade (DESIGN, C03)
-                        v.push(SlCase { sl: true, link_len: vec![TOTAL], zones: z.clone(), grade, head_end: head, train, t0, mode: Mode::Whole, brake_ramp: Some(10.0) });
+                        v.push(SlCase { sl: true, link_len: vec![TOTAL], zones: z.clone(), grade, head_end: head, train, t0, mode: Mode::Whole, brake_ramp: Some(10.0), neg: 0 });
                     }
                     // multi-link schedules
                     if tier.is_thorough() || pi % 3 == 0 {
                         let chain = vec![1000.0, 1000.0, 1000.0];
                         for th in [8047.0, 1000.0, 25.0] {
-                            v.push(SlCase { sl: true, link_len: chain.clone(), zones: z.clone(), grade, head_end: head, train, t0, mode: Mode::LinkByLink { threshold: th }, brake_ramp: None });
+                            v.push(SlCase { sl: true, link_len: chain.clone(), zones: z.clone(), grade, head_end: head, train, t0, mode: Mode::LinkByLink { threshold: th }, brake_ramp: None, neg: 0 });
                         }
                         if ti == 0 {
-                            v.push(SlCase { sl: true, link_len: chain.clone(), zones: z.clone(), grade, head_end: head, train, t0, mode: Mode::Timed { delayed: 0, delay: 0.0 }, brake_ramp: None });
+                            v.push(SlCase { sl: true, link_len: chain.clone(), zones: z.clone(), grade, head_end: head, train, t0, mode: Mode::Timed { delayed: 0, delay: 0.0 }, brake_ramp: None, neg: 0 });
                             for delayed in [1usize, 2] {
                                 for delay in [60.0, 600.0] {
-                                    v.push(SlCase { sl: true, link_len: chain.clone(), zones: z.clone(), grade, head_end: head, train, t0, mode: Mode::Timed { delayed, delay }, brake_ramp: None });
+                                    v.push(SlCase { sl: true, link_len: chain.clone(), zones: z.clone(), grade, head_end: head, train, t0, mode: Mode::Timed { delayed, delay }, brake_ramp: None, neg: 0 });
                                 }
                             }
                             if grade % 2 == 0 {
                                 // make_est_times only moves the train while more than 5 mi of path lie ahead: add a 9 km link
                                 let mut zl = z.clone();
                                 zl.push((TOTAL, TOTAL + 9000.0, 15.0));
-                                v.push(SlCase { sl: true, link_len: vec![1000.0, 1000.0, 1000.0, 9000.0], zones: zl, grade, head_end: head, train, t0, mode: Mode::EstTimes, brake_ramp: None });
+                                v.push(SlCase { sl: true, link_len: vec![1000.0, 1000.0, 1000.0, 9000.0], zones: zl, grade, head_end: head, train, t0, mode: Mode::EstTimes, brake_ramp: None, neg: 0 });
                             }
                         }
                     }
